@@ -115,3 +115,31 @@ META = {
         "technique": 'stateless model checking of the implementation: exhaustive preemption-bounded schedule enumeration under a controlled scheduler (HB-prefix caching)',
     },
 }
+
+
+# appended to the level text of a property (what was added in the later rounds)
+THREADED_ADDENDUM = (" Every threaded harness is explored a second time in a ThreadSanitizer build (a data race in the library on any explored "
+                     "schedule is a violation) and a third time in store-buffer (x86-TSO) mode, in which each non-seq_cst atomic store may stay "
+                     "invisible to the other threads until the storing thread's next barrier, each such delay costing one unit of the same budget "
+                     "as a preemption (this is what decides a removed or weakened seq_cst fence).")
+ADDENDA = {
+    "C01": THREADED_ADDENDUM,
+    "C02": " A second build of the expression generator (exprnx) declares rvalue connect of the erased sender noexcept, so that every is_nothrow_connectable branch of the adaptors is compiled the other way round, with a leaf whose lvalue re-connect throws; every probe receiver is moved destructively (use of a moved-from receiver is reported)." + THREADED_ADDENDUM,
+    "C03": THREADED_ADDENDUM,
+    "C04": " The future harnesses (await + cancel, drop) also serve this property." + THREADED_ADDENDUM,
+    "C05": " The fault sweeps (one throwing callable at every position, the n-th connect of a leaf throwing) also run in the exprnx build (rvalue connect noexcept, lvalue connect throwing), and repeat_effect_until is part of the alphabet.",
+    "C06": " static_thread_pool is also destroyed right after an item was accepted; the condition-variable based contexts are explored once more with spurious wake-ups as budgeted deviations." + THREADED_ADDENDUM,
+    "C07": " io_epoll_context and io_uring_context timers: three timers with every due-time combination, any one cancelled at once / at the first due time / at its own due time, optionally starting a further timer from its completion; spurious wake-ups as budgeted deviations for the condition-variable based contexts." + THREADED_ADDENDUM,
+    "C08": " Operation sequences over spawn / move-assign (including a sender nested after the close assigned over a live one) / destroy / await / close are enumerated as well." + THREADED_ADDENDUM,
+    "C09": " The result also travels as a tracked payload whose n-th copy/move throws (constructions and destructions balanced, nothing destroyed that was never constructed) while the future is awaited or dropped concurrently." + THREADED_ADDENDUM,
+    "C10": " Threaded variants race the completing thread, a stop requester and the task's scheduler (inline, one event-loop thread, an event loop run by two threads)." + THREADED_ADDENDUM,
+    "C11": THREADED_ADDENDUM,
+    "C12": " In lvalue-connect mode the erased nodes connect their own sender object as a non-const lvalue every time (as retry_when / repeat_effect_until do), with scheduler and allocator values that have destructive moves; probe receivers are moved destructively.",
+    "C13": THREADED_ADDENDUM,
+    "C14": " Three-timer harnesses as under C07." + THREADED_ADDENDUM,
+    "C15": " Every sequence of up to 7 (8) operations over start-waiter / cancel waiter k / unlock is run against a FIFO reference (removal from the front, middle and tail of the waiter list)." + THREADED_ADDENDUM,
+    "C16": " Every sequence of up to 6 (7) operations over wait / cancel waiter k / set / reset is run against a bool + parked-set reference for both event versions." + THREADED_ADDENDUM,
+    "C17": " The execution policy the bulk source is told is checked for every combination of function and receiver policies under one and two bulk_transform layers.",
+    "C18": " Probe receivers are moved destructively, so a wrapper that queries the receiver it has already moved from is reported." + THREADED_ADDENDUM,
+    "C19": THREADED_ADDENDUM,
+}
